@@ -303,13 +303,31 @@ agraph (float[2,{n}] x, float[{n}] bias) => (float[2,{n}] y)
 }}"""
 
 
+def fam_slice_split(rng: Rng) -> str:
+    """Two Slices of the halves of the last axis (SlicesSplit: the only shipped rule whose pattern has two output nodes)."""
+    k = rng.choice([2, 3, 4])
+    order = rng.chance(0.5)
+    mid = rng.choice(["", "r = Relu(x)\n   "])
+    s0 = "a = Slice(x, b0, e0, ax)"
+    s1 = "b = Slice(x, b1, e1, ax)"
+    first, second = (s0, s1) if order else (s1, s0)
+    return f"""<ir_version: 10, opset_import: ["" : 20]>
+agraph (float[2,{2 * k}] x) => (float[2,{k}] y)
+<int64[1] b0 = {{0}}, int64[1] e0 = {{{k}}}, int64[1] b1 = {{{k}}}, int64[1] e1 = {{{2 * k}}}, int64[1] ax = {{{rng.choice([-1, 1])}}}>
+{{
+   {mid}{first}
+   {second}
+   y = {rng.choice(["Add(a, b)", "Mul(b, a)", "Sub(a, b)"])}
+}}"""
+
+
 FAMILIES = {
     "pad_conv": fam_pad_conv, "pad_conv_tail": fam_pad_conv_fail_tail, "reshape_reshape": fam_reshape_reshape,
     "flatten": fam_flatten, "cast_cast": fam_cast_cast, "transpose": fam_transpose, "minmax": fam_minmax,
     "clip_relu": fam_clip_relu, "unsqueeze": fam_unsqueeze, "bn_conv": fam_batchnorm_conv, "bn_gemm": fam_batchnorm_gemm,
     "matmul_add": fam_matmul_add, "slice": fam_slice, "expand": fam_expand, "cast_cos": fam_cast_constant_of_shape,
     "mat_reshape": fam_materialize_reshape, "fold_chain": fam_fold_chain,
-    "rms_norm": fam_rms_norm, "layer_norm": fam_layer_norm, "gelu": fam_gelu,
+    "rms_norm": fam_rms_norm, "layer_norm": fam_layer_norm, "gelu": fam_gelu, "slice_split": fam_slice_split,
 }
 
 
